@@ -79,6 +79,16 @@ def stog_kwargs(cfg, **extra):
         tr["Qmax"] = cfg["Qmax"]
     if tr:
         merging["Transform"] = tr
+    if cfg.get("opt_types"):      # option values as numpy scalars (what arithmetic on arrays hands over), exactly representable
+        import numpy as _np
+
+        def wrap(v):
+            if isinstance(v, dict):
+                return {k_: wrap(x_) for k_, x_ in v.items()}
+            if cfg["opt_types"] == "int64" and float(v).is_integer():
+                return _np.int64(v)
+            return _np.float32(v)
+        merging = {k_: (wrap(v_) if k_ != "Transform" else v_) for k_, v_ in merging.items()}
     if merging or cfg.get("Merging") is not None:
         kw["Merging"] = merging
     kw.update(extra)
